@@ -132,6 +132,7 @@ class Summary:
         self.ret = None             # AV over the parameters' labels (None: does not return a value yet)
         self.sites = []
         self.unknown_calls = set()
+        self.field_stores = []      # (attr, node, AV, names known to be dicts there): `self.attr = v` on a non-operand receiver
 
     def key(self):
         return (frozenset(self.mutates), self.ret.key() if self.ret else None)
@@ -337,6 +338,8 @@ class _Walker:
             self.site('store', st, base, root_name=self.root(t.value), attr=t.attr)
             if isinstance(t.value, ast.Name) and base.all() and not any(is_operand_label(l) for l in base.all()):
                 env[f"{t.value.id}.{t.attr}"] = v
+                if not any(x[1] is st and x[0] == t.attr for x in self.s.field_stores):
+                    self.s.field_stores.append((t.attr, st, v, frozenset(self.dict_guarded)))
             else:
                 self.deepen(t.value, v, env)
         elif isinstance(t, ast.Starred):
@@ -651,6 +654,30 @@ class _Walker:
             return AV(fl.outer, fl.deep)
         if recv is not None and name in getattr(self.fa, 'extra_fresh_methods', ()):
             return AV(E, recv.flat().deep)          # a new object (contract table of the check that set extra_fresh_methods)
+        if recv is not None and name in getattr(self.fa, 'extra_deep_fresh_methods', ()):
+            # a deep copy (contract table of the check that set extra_deep_fresh_methods), unless asked to be shallow
+            shallow = [k for k in e.keywords if k.arg == 'deep' and not (isinstance(k.value, ast.Constant) and k.value.value is True)]
+            if (not shallow and not e.args) or getattr(self.fa, 'copy_on_write', False):
+                return FRESH
+            return AV(E, recv.flat().deep | recv.flat().outer)
+        if getattr(self.fa, 'constructors', False) and isinstance(f, ast.Name) and f.id not in env:
+            ck, cm = self.fa.src.method(f.id, '__init__')
+            if cm is not None:
+                summ = self.fa.summary(ck)
+                if summ is not None:
+                    self.apply_summary(e, ck, summ, [AV(E, E)] + args, kws, env)
+                    params = list(summ.params)[1:]
+                    actual = dict(zip(params, args))
+                    actual.update({k: v for k, v in kws.items() if k in params})
+                    deep = E
+                    for attr, node_, v, _g in summ.field_stores:
+                        for l in v.all():
+                            if l.startswith('@'):
+                                continue
+                            a_ = actual.get(l.rstrip('*'))
+                            if a_ is not None:
+                                deep |= a_.flat().deep if l.endswith('*') else a_.flat().outer
+                    return AV(E, deep)           # a new object; its members are what the constructor stored
         if recv is not None and name in METHOD_ALIAS:
             fl = recv.flat()
             return AV(fl.outer, fl.deep)            # may return the receiver itself or share its storage (x.float() on a float tensor, x.detach())
